@@ -111,7 +111,8 @@ prop(
 
 prop(
     "C08", level="other", selftest=["number_ordered_form"],
-    rules=[e10.rule_operator_order, e10.rule_fermion_crossing, e10.rule_shift_table, e10.rule_linear_structure],
+    rules=[e10.rule_operator_order, e10.rule_fermion_crossing, e10.rule_shift_table, e10.rule_linear_structure,
+           e4.rule_loop_carried_state],
     explanation=(
         "Necessary conditions of faithfulness decided from number_ordered_form.py: (i) the order in which __mul__ "
         "applies the right operand's creation / annihilation operators equals the order as_expr denotes (extracted and "
@@ -139,7 +140,7 @@ prop(
 prop(
     "C10", level="other", selftest=["series", "block_diagonalization"],
     rules=[e4.rule_no_inplace_mutation, e4.rule_closure_state, e3.rule_memo_owner, e3.rule_typestate,
-           e7.rule_shared_eigenvalue_check],
+           e7.rule_shared_eigenvalue_check, e4.rule_loop_carried_state],
     explanation=(
         "Structural cause of history independence: evals are pure and the memo is disciplined. Flow-sensitive "
         "freshness analysis over every function of the evaluation modules (in-place sinks: augmented assignment, item "
